@@ -148,12 +148,12 @@ func tryReplay(prop string, rep *OblReport, o *Obligation) *replayResult {
 		}
 		return m[2] // default
 	})
-	dir := filepath.Join("/verif/out", prop, "replay")
+	dir := filepath.Join(outRoot, prop, "replay")
 	os.MkdirAll(dir, 0o755)
 	testFile := filepath.Join(dir, sanitizeFile(rep.Name)+"_replay_test.go")
 	os.WriteFile(testFile, []byte(body), 0o644)
 	res.TestFile = testFile
-	ov := map[string]map[string]string{"Replace": {filepath.Join("/repo", pkgDir, "zz_govc_replay_test.go"): testFile}}
+	ov := map[string]map[string]string{"Replace": {filepath.Join(repoRoot, pkgDir, "zz_govc_replay_test.go"): testFile}}
 	ovb, _ := json.Marshal(ov)
 	ovFile := testFile + ".overlay.json"
 	os.WriteFile(ovFile, ovb, 0o644)
@@ -164,7 +164,7 @@ func tryReplay(prop string, rep *OblReport, o *Obligation) *replayResult {
 	}
 	args = append(args, rel)
 	cmd := exec.Command("go", args...)
-	cmd.Dir = filepath.Join("/repo", modDir)
+	cmd.Dir = filepath.Join(repoRoot, modDir)
 	cmd.Env = goEnv
 	out, _ := cmd.CombinedOutput()
 	res.Ran = true
